@@ -13,6 +13,7 @@
 From Coq Require Import List Bool ZArith String.
 From CliUtils Require Import Base.Json Model.KStatus Model.KStatusSpec Model.KubectlRollout
      Proofs.KStatusProofs Proofs.KStatusC07Proofs Proofs.KStatusC08Proofs.
+From CliUtils Require Import Generated.SourceTables Proofs.SourceTablesAgree.
 Import ListNotations.
 Local Open Scope string_scope.
 
@@ -272,6 +273,13 @@ Theorem C08_always_current : forall j w k,
   k = LPdb \/ k = LAlwaysReady -> is_kind j k -> no_generic j -> compute j w = Ok Current [].
 Proof. exact always_current. Qed.
 
+(* the kind dispatch of the model is the legacyTypes table extracted from
+   pkg/kstatus/status/core.go on this run (harness/cmd/gentables) *)
+Theorem C08_dispatch_from_source : forall key,
+  KStatus.legacy_of_key key =
+  match assoc key src_legacy_types with Some fn => legacy_of_fn fn | None => None end.
+Proof. exact legacy_dispatch_from_source. Qed.
+
 Print Assumptions C08_deploy_current.
 Print Assumptions C08_deploy_failed.
 Print Assumptions C08_deploy_otherwise.
@@ -350,3 +358,4 @@ Example C08_ex_sts :
   is_kind ex8_sts LSts /\ no_generic ex8_sts /\ kubectl_statefulset ex8_sts = KWaiting /\
   compute ex8_sts false = Ok InProgress [("Reconciling", "True")].
 Proof. repeat split; reflexivity. Qed.
+Print Assumptions C08_dispatch_from_source.
